@@ -23,6 +23,9 @@ def variant_list(body, variants):
         return None
     if not any(x[0] == "var" and x[1] in variants for x in st[0]):
         return None
+    stmts = body["stmts"] if isinstance(body, dict) and body.get("k") == "Block" else body
+    if not (isinstance(stmts, list) and len(stmts) == 1 and stmts[0].get("k") == "Expr" and stmts[0]["e"].get("k") == "Matches"):
+        return None          # the list is only part of the answer (an early return, a helper, `||`): evaluate the method instead
     return st
 
 
@@ -91,10 +94,32 @@ def flag_eval(ctx, it, variant, code, depth=3):
     body = it["body"]
     if isinstance(body, dict) and body.get("k") == "Block":
         body = body["stmts"]
-    if isinstance(body, list):
-        if len(body) != 1 or body[0]["k"] != "Expr":
-            raise Undecided("body is not a single expression")
-        body = body[0]["e"]
+
+    class Return(Exception):
+        def __init__(self, v):
+            self.v = v
+
+    def run_block(stmts):
+        """value of a block of `if c { return x; }` statements followed by a tail expression"""
+        if isinstance(stmts, dict) and stmts.get("k") == "Block":
+            stmts = stmts["stmts"]
+        if isinstance(stmts, dict):
+            return ev(stmts)
+        last = None
+        for i, st in enumerate(stmts):
+            if st.get("k") != "Expr":
+                raise Undecided("statement %s" % st.get("k"))
+            e = st["e"]
+            if i == len(stmts) - 1:
+                return ev(e)
+            if e.get("k") == "If" and e.get("else") is None:
+                if truth(ev(e["cond"])):
+                    run_block(e["then"])
+                continue
+            if e.get("k") == "Return":
+                raise Return(ev(e["e"]))
+            raise Undecided("statement form")
+        return last
 
     def ev(e):
         k = e["k"]
@@ -104,6 +129,21 @@ def flag_eval(ctx, it, variant, code, depth=3):
             return ev(e["e"])
         if k == "Lit":
             return lit_val(e)
+        if k == "Return":
+            raise Return(ev(e["e"]))
+        if k == "If":
+            if truth(ev(e["cond"])):
+                return run_block(e["then"])
+            if e.get("else") is None:
+                raise Undecided("if without else as a value")
+            return run_block(e["else"]) if e["else"].get("k") == "Block" else ev(e["else"])
+        if k == "Matches" and e["e"].get("k") == "Path" and e["e"]["path"] == "self":
+            # matches!(self, Self::A | Self::B ..): is this variant listed
+            p = tables.pdesc(e["pat"])
+            ps = p[1] if p[0] == "or" else (p,)
+            if not all(x[0] == "var" for x in ps):
+                raise Undecided("pattern on self")
+            return variant in {x[1] for x in ps}
         if k == "Matches":
             return pat_match(e["pat"], ev(e["e"]))
         if k == "Unary" and e["op"] == "!":
@@ -211,7 +251,10 @@ def flag_eval(ctx, it, variant, code, depth=3):
             return ev(clo["body"])
         finally:
             env.pop(prm["name"], None)
-    return ev(body)
+    try:
+        return run_block(body) if isinstance(body, list) else ev(body)
+    except Return as r:
+        return r.v
 
 
 def run(ctx, rep):
